@@ -596,7 +596,26 @@ func (t *Dense) Eq(other interface{}) bool {
 			return false
 		}
 
-		return t.array.Eq(&ot.array)
+		if !t.RequiresIterator() && !ot.RequiresIterator() && t.DataOrder().HasSameOrder(ot.DataOrder()) {
+			return t.array.Eq(&ot.array)
+		}
+
+		// the two backing arrays are not laid out alike: compare by coordinates
+		if t.Dtype() != ot.Dtype() {
+			return false
+		}
+		it := newFlatIterator(&t.AP)
+		oit := newFlatIterator(&ot.AP)
+		for {
+			i, err := it.Next()
+			j, oerr := oit.Next()
+			if err != nil || oerr != nil {
+				return err != nil && oerr != nil
+			}
+			if t.Get(i) != ot.Get(j) {
+				return false
+			}
+		}
 	}
 	return false
 }
